@@ -451,7 +451,15 @@ var c01Mid = mkFile(seqBytes(40, 9), 1)
 func c01LapseEnum() mc.Enum {
 	joins := []string{"Proof:P1:f1:valid", "Proof:P2:f1:valid", "Proof:P3:f1:valid"}
 	nb := rep("NextBlock", 7)
-	return pathEnum("C01", "C01/lapse-paths", C01{}, [][]string{
+	// the requester of a form lapses and is struck off while the providers named on it go on proving; then they sign
+	var stale [][]string
+	for _, k1 := range []int{2, 3, 4} {
+		for _, k2 := range []int{2, 3, 4} {
+			stale = append(stale, cat(joins, []string{"AttReq:P1"}, rep("NextBlock", k1), []string{"Proof:P2:f1:valid", "Proof:P3:f1:valid"}, rep("NextBlock", k2),
+				[]string{"Proof:P2:f1:valid", "Proof:P3:f1:valid", "NextBlock", "Attest:P2:P1", "Attest:P3:P1"}, rep("NextBlock", 2)))
+		}
+	}
+	return pathEnum("C01", "C01/lapse-paths", C01{}, append(stale, [][]string{
 		cat(joins, nb),
 		cat(joins, []string{"AttReq:P1"}, nb),
 		cat(joins, []string{"AttReq:P3"}, nb),
@@ -459,7 +467,7 @@ func c01LapseEnum() mc.Enum {
 		cat(joins, []string{"AttReq:P1", "Attest:P3:P1"}, nb),
 		cat(joins, []string{"NextBlock", "NextBlock", "AttReq:P1"}, nb),
 		cat(joins, []string{"AttReq:P1", "AttReq:P3", "Attest:P2:P1", "Attest:P2:P3"}, nb),
-	})
+	}...))
 }
 
 // c01GasEnum: the gas limit of a transaction is the sender's to choose. A newcomer sends a payload that does not prove
@@ -665,7 +673,7 @@ func init() {
 		r.AddEnum(c01AliasEnum(), workers(), time.Now().Add(10*time.Minute))
 		r.Rules = append(r.Rules, "other-chunk enumeration: a 40-chunk file; for every index the chain challenges the prover with (the honest prover keeps proving until all 40 have come up), the content and hash list of each of the 39 other chunks is submitted for that index and must be rejected without any change")
 		r.AddEnum(c01OtherChunkEnum(), workers(), time.Now().Add(10*time.Minute))
-		r.Rules = append(r.Rules, "lapse paths: 7 fixed histories of 10-14 steps (three provers join; attestation forms requested and left unsigned or one signature short; then seven blocks in which nobody proves), every step judged by the same oracle as the search")
+		r.Rules = append(r.Rules, "lapse paths: 16 fixed histories of 10-18 steps (among them: the requester of a form is struck off while the named providers go on proving and then sign) (three provers join; attestation forms requested and left unsigned or one signature short; then seven blocks in which nobody proves), every step judged by the same oracle as the search")
 		r.AddEnum(c01LapseEnum(), workers(), time.Time{})
 		r.Rules = append(r.Rules, "gas limits: a newcomer sends each of three payloads that do not prove the challenged chunk under every gas limit from 0 to what the message needs plus 3000, in steps of 50 (seam A: a finite gas meter around the handler; seam B: the limit of the signed transaction): the storage store stays byte-identical")
 		r.AddEnum(c01GasEnum(), workers(), time.Time{})
